@@ -366,15 +366,38 @@ Lemma g_get_symbol_registry r s : g_get_symbol r false nohid (parse_unit_name r)
 Proof. reflexivity. Qed.
 Lemma g_prefixed_def_registry r p u : g_prefixed_def r false nohid (parse_unit_name r) p u = prefixed_def r p u.
 Proof. reflexivity. Qed.
-Lemma g_resolve_registry r s : g_resolve r false nohid false (parse_unit_name r) s = resolve r s.
-Proof. reflexivity. Qed.
-Lemma g_get_name_registry r s : g_get_name r false nohid false (parse_unit_name r) s = get_name r s.
+(** [Registry.resolve] follows the repaired pint in one respect: a definition already stored under
+    prefix ++ unit is used instead of a newly built one.  It is the generic function with the
+    "never replace" switch on (nothing hidden), provided the prefixed reading is well formed there:
+    the prefix name is a spelling and the unit is multiplicative (the repaired pint tests that
+    before it looks the composed name up). *)
+Definition composed_ok (r : reg) (s : string) : Prop :=
+  ∀ p u l d, parse_unit_name r s = (p, u) :: l → p ≠ "" → r_units r !! (p ++ u) = Some d →
+  is_Some (r_prefixes r !! p) ∧ ∃ ud, r_units r !! u = Some ud ∧ u_multiplicative ud = true.
+Lemma g_resolve_registry r sx s :
+  composed_ok r s → g_resolve r sx nohid true (parse_unit_name r) s = resolve r s.
 Proof.
-  unfold g_get_name, get_name. destruct (String.eqb s "dimensionless"); [reflexivity|].
-  rewrite <- g_resolve_registry. unfold g_resolve, g_exact, nohid. cbv beta iota.
+  intros C. unfold g_resolve, resolve, g_exact, nohid. cbv beta iota.
   destruct (r_units r !! s); [reflexivity|].
-  destruct (parse_unit_name r s) as [|[p u] l]; [reflexivity|].
-  destruct (String.eqb p ""); [destruct (r_units r !! u); reflexivity | reflexivity].
+  destruct (parse_unit_name r s) as [|[p u] l] eqn:El; [reflexivity|].
+  destruct (String.eqb p "") eqn:Ep; [reflexivity|]. apply String.eqb_neq in Ep.
+  destruct (r_units r !! (p ++ u)) as [d|] eqn:Ec.
+  - destruct (C p u l d El Ep Ec) as ([pd ->] & ud & -> & ->). reflexivity.
+  - unfold g_prefixed_def, prefixed_def. destruct (r_prefixes r !! p), (r_units r !! u) as [ud|]; try reflexivity.
+    destruct (negb (u_multiplicative ud)); [reflexivity|].
+    unfold g_get_symbol, g_exact. rewrite Ec. destruct sx; reflexivity.
+Qed.
+(** the old behaviour (a new definition is built and stored even when the name exists) agrees with
+    [Registry.resolve] when the composed name is free *)
+Lemma g_resolve_registry_free r s :
+  (∀ p u l, parse_unit_name r s = (p, u) :: l → p ≠ "" → r_units r !! (p ++ u) = None) →
+  g_resolve r false nohid false (parse_unit_name r) s = resolve r s.
+Proof.
+  intros C. unfold g_resolve, resolve, g_exact, nohid. cbv beta iota.
+  destruct (r_units r !! s); [reflexivity|].
+  destruct (parse_unit_name r s) as [|[p u] l] eqn:El; [reflexivity|].
+  destruct (String.eqb p "") eqn:Ep; [reflexivity|]. apply String.eqb_neq in Ep.
+  rewrite (C p u l eq_refl Ep). reflexivity.
 Qed.
 Lemma g_register_registry r s : fst (g_register r false nohid false (parse_unit_name r) s) = register r s.
 Proof.
@@ -474,12 +497,13 @@ Qed.
 
 (** * Prefixed readings *)
 Theorem prefix_once r s p u l d :
-  r_units r !! s = None → parse_unit_name r s = (p, u) :: l → p ≠ "" → resolve r s = Ok d →
+  r_units r !! s = None → parse_unit_name r s = (p, u) :: l → p ≠ "" → r_units r !! (p ++ u) = None →
+  resolve r s = Ok d →
   ∃ pd, r_prefixes r !! p = Some pd ∧
         u_name d = p ++ u ∧ u_scale d = p_val pd ∧ u_ref d = {[ u := 1%Qc ]} ∧ u_conv d = CScale ∧
         r_units (register r s) !! (p ++ u) = Some d.
 Proof.
-  intros Hs Hl N. unfold resolve, register. rewrite Hs, Hl. apply String.eqb_neq in N. rewrite N.
+  intros Hs Hl N Hc. unfold resolve, register. rewrite Hs, Hl. apply String.eqb_neq in N. rewrite N, Hc.
   unfold prefixed_def. destruct (r_prefixes r !! p) as [pd|] eqn:Ep; [|discriminate].
   destruct (r_units r !! u) as [ud|] eqn:Eu; [|discriminate].
   destruct (negb (u_multiplicative ud)); [discriminate|].
@@ -501,12 +525,13 @@ Proof.
 Qed.
 Theorem offset_not_prefixable r s p u l pd ud :
   s ≠ "dimensionless" → r_units r !! s = None → parse_unit_name r s = (p, u) :: l → p ≠ "" →
+  r_units r !! (p ++ u) = None →
   r_prefixes r !! p = Some pd → r_units r !! u = Some ud → u_multiplicative ud = false →
   get_name r s = Err EOffset ∧ register r s = r.
 Proof.
-  intros Nd Hs Hl N Hp Hu Hm. unfold get_name, resolve, register.
+  intros Nd Hs Hl N Hc Hp Hu Hm. unfold get_name, resolve, register.
   apply String.eqb_neq in Nd. apply String.eqb_neq in N.
-  rewrite Nd, Hs, Hl, N. unfold prefixed_def. rewrite Hp, Hu, Hm. auto.
+  rewrite Nd, Hs, Hl, N, Hc. unfold prefixed_def. rewrite Hp, Hu, Hm. auto.
 Qed.
 
 (** * Registries whose canonical names are spellings *)
@@ -556,10 +581,12 @@ Theorem get_name_cases r s :
   wf_canon r → s ≠ "dimensionless" →
   match get_name r s with
   | Ok n => (∃ d, r_units r !! s = Some d ∧ n = u_name d)
-            ∨ (r_units r !! s = None ∧ ∃ p u l, parse_unit_name r s = (p, u) :: l ∧ n = p ++ u)
+            ∨ (r_units r !! s = None ∧ ∃ p u l, parse_unit_name r s = (p, u) :: l ∧
+               (n = p ++ u ∨ (p ≠ "" ∧ ∃ d, r_units r !! (p ++ u) = Some d ∧ n = u_name d)))
   | Err e => r_units r !! s = None ∧
              ((e = EUndefined s ∧ parse_unit_name r s = [])
               ∨ (e = EOffset ∧ ∃ p u l ud, parse_unit_name r s = (p, u) :: l ∧ p ≠ "" ∧
+                                          r_units r !! (p ++ u) = None ∧
                                           r_units r !! u = Some ud ∧ u_multiplicative ud = false))
   end.
 Proof.
@@ -572,7 +599,10 @@ Proof.
   destruct (String.eqb p "") eqn:Ep.
   - apply String.eqb_eq in Ep. subst p. destruct Hu as (d & Hu & Hd). rewrite Hu. simpl.
     right. split; [reflexivity|]. exists "", u, l. rewrite Hd. auto.
-  - apply String.eqb_neq in Ep. unfold prefixed_def.
+  - apply String.eqb_neq in Ep.
+    destruct (r_units r !! (p ++ u)) as [dc|] eqn:Ec; simpl.
+    { right. split; [reflexivity|]. exists p, u, l. split; [reflexivity|]. right. eauto. }
+    unfold prefixed_def.
     destruct Hp as (Hk & pd & Hp & Hn). destruct Hu as (d & Hu & Hd). rewrite Hp, Hu.
     destruct (u_multiplicative d) eqn:Em; simpl.
     + destruct (get_symbol_ok r p u W Ep) as [sym Hsym]; [eauto | eauto |]. rewrite Hsym. simpl.
@@ -816,14 +846,24 @@ Definition hi_guard (r r' : reg) (s : string) : bool :=
       || bool_decide (r_units r' !! strip_name s pk suffix = None))
     (r_prefix_keys r)) suffixes
   && (bool_decide (is_Some (r_units r !! s)) || bool_decide (r_units r' !! s = None)
-      || match get_name r s with Ok n => String.eqb n s | Err _ => false end).
+      || match get_name r s with Ok n => String.eqb n s | Err _ => false end)
+  (* (c) if the name composed from the first reading was registered by the history, its unit is
+         multiplicative in the fresh registry ([Registry.resolve] uses a stored prefix+unit
+         definition without that test) *)
+  && match parse_unit_name r s with
+     | (p, u) :: _ =>
+         String.eqb p "" || bool_decide (is_Some (r_units r !! (p ++ u)))
+         || bool_decide (r_units r' !! (p ++ u) = None)
+         || match r_units r !! u with Some d => u_multiplicative d | None => false end
+     | [] => true
+     end.
 
 Lemma hi_guard_a r r' s suffix pk :
   hi_guard r r' s = true → In suffix suffixes → In pk (r_prefix_keys r) → pk ≠ "" →
   String.prefix pk s = true → ends_with suffix s = true →
   r_units r !! strip_name s pk suffix = None → r_units r' !! strip_name s pk suffix = None.
 Proof.
-  intros H Hs Hk N Hp He Hn. apply andb_prop in H as [H _].
+  intros H Hs Hk N Hp He Hn. apply andb_prop in H as [H _]. apply andb_prop in H as [H _].
   rewrite forallb_forall in H. specialize (H suffix Hs). rewrite forallb_forall in H. specialize (H pk Hk).
   apply String.eqb_neq in N. rewrite N, Hp, He, Hn in H. simpl in H.
   apply bool_decide_eq_true in H. exact H.
@@ -831,7 +871,7 @@ Qed.
 Lemma hi_guard_b r r' s d :
   hi_guard r r' s = true → r_units r !! s = None → r_units r' !! s = Some d → get_name r s = Ok s.
 Proof.
-  intros H Hn Hd. apply andb_prop in H as [_ H].
+  intros H Hn Hd. apply andb_prop in H as [H _]. apply andb_prop in H as [_ H].
   rewrite bool_decide_eq_false_2 in H by (rewrite Hn; apply is_Some_None).
   rewrite bool_decide_eq_false_2 in H by congruence. simpl in H.
   destruct (get_name r s) as [n|e]; [|discriminate]. apply String.eqb_eq in H. congruence.
@@ -885,10 +925,25 @@ Proof.
   rewrite <- triplets_cells. apply cell_ins; assumption.
 Qed.
 
+Lemma hi_guard_c r r' s p u l d0 dc :
+  hi_guard r r' s = true → parse_unit_name r s = (p, u) :: l → p ≠ "" →
+  r_units r !! (p ++ u) = None → r_units r' !! (p ++ u) = Some dc → r_units r !! u = Some d0 →
+  u_multiplicative d0 = true.
+Proof.
+  intros H Hl Np Hn Hc Hu. apply andb_prop in H as [_ H]. rewrite Hl in H.
+  apply String.eqb_neq in Np. rewrite Np, Hu in H.
+  rewrite bool_decide_eq_false_2 in H by (rewrite Hn; apply is_Some_None).
+  rewrite bool_decide_eq_false_2 in H by congruence. exact H.
+Qed.
+
 Lemma get_name_head r s p u l :
   wf_canon r → s ≠ "dimensionless" → r_units r !! s = None → parse_unit_name r s = (p, u) :: l →
   ∃ d0, r_units r !! u = Some d0 ∧
-        get_name r s = (if String.eqb p "" then Ok u else if u_multiplicative d0 then Ok (p ++ u) else Err EOffset).
+        get_name r s = (if String.eqb p "" then Ok u
+                        else match r_units r !! (p ++ u) with
+                             | Some d => Ok (u_name d)
+                             | None => if u_multiplicative d0 then Ok (p ++ u) else Err EOffset
+                             end).
 Proof.
   intros W Nd Es El.
   assert (Hin : (p, u) ∈ parse_unit_name r s) by (rewrite El; left).
@@ -898,7 +953,8 @@ Proof.
   unfold get_name, resolve. apply String.eqb_neq in Nd. rewrite Nd, Es, El.
   destruct (String.eqb p "") eqn:Ep.
   - rewrite Hd0. simpl. rewrite Hn0. reflexivity.
-  - apply String.eqb_neq in Ep. unfold prefixed_def. destruct Hp as (Hk & pd & Hpd & Hpn). rewrite Hpd, Hd0.
+  - apply String.eqb_neq in Ep. destruct (r_units r !! (p ++ u)) as [dc|]; [reflexivity|].
+    unfold prefixed_def. destruct Hp as (Hk & pd & Hpd & Hpn). rewrite Hpd, Hd0.
     destruct (u_multiplicative d0) eqn:Em; simpl; [|reflexivity].
     destruct (get_symbol_ok r p u W Ep) as [sym Hsym]; [split; eauto | eauto |]. rewrite Hsym. reflexivity.
 Qed.
@@ -926,7 +982,13 @@ Proof.
   - destruct (get_name_head r s p u l (proj1 W) Ed Es El) as (d0 & Hd0 & ->).
     destruct (get_name_head r' s p u l W' Ed Es' Hparse) as (d1 & Hd1 & ->).
     destruct (ext_old _ _ E _ _ Hd0) as (dd & Hdd & _ & Hk2). rewrite Hdd in Hd1. injection Hd1 as <-.
-    rewrite Hk2. reflexivity.
+    destruct (String.eqb p "") eqn:Ep; [reflexivity|]. apply String.eqb_neq in Ep.
+    destruct (r_units r !! (p ++ u)) as [dc|] eqn:Ec.
+    + destruct (ext_old _ _ E _ _ Ec) as (dc' & -> & Hn & _). rewrite Hn. reflexivity.
+    + destruct (r_units r' !! (p ++ u)) as [dc'|] eqn:Ec'.
+      * destruct (ext_new _ _ E _ _ Ec' Ec) as [-> _].
+        rewrite (hi_guard_c r r' s p u l d0 dc' G El Ep Ec Ec' Hd0). reflexivity.
+      * rewrite Hk2. reflexivity.
 Qed.
 
 (** * A decidable check of [wf_names] *)
